@@ -419,12 +419,23 @@ class Interp:
             if v is TOP and e["op"] == "=" and key is not None and "*" not in l.get("t", "*"):
                 # aggregate copy (a = b with struct operands): copy what is known below b, forget what was known below a
                 rk = self.canon(p, self.key_of(p, e["r"]))
+                r0 = strip(e["r"])
+                below = {}
+                if isinstance(r0, dict) and r0.get("k") == "un" and r0["op"] == "*":
+                    pv = self.ev(p, r0["e"])
+                    if isinstance(pv, Ptr) and isinstance(pv.what, str) and not getattr(pv, "addr", False):
+                        # a = *ptr with ptr = Ptr('X'): the fields are X->f
+                        rk = None
+                        for src in (self.inputs, p.env):
+                            for k2, v2 in src.items():
+                                if k2.startswith(pv.what + "->"):
+                                    below["." + k2[len(pv.what) + 2:]] = self.read(p, k2)
                 if rk is not None and rk != key:
-                    below = {}
                     for src in (self.inputs, p.env):
                         for k2, v2 in src.items():
                             if k2.startswith(rk + "."):
                                 below[k2[len(rk):]] = self.read(p, k2)
+                if below or (rk is not None and rk != key):
                     if below:
                         self.clobber(p, self.canon(p, key), keep_self=True)
                         for suf, v2 in below.items():
